@@ -31,7 +31,7 @@ class ST1:
 
 # =========================================================================== C08: service tasks
 
-ACTIONS = ["cancel", "none", "sync_callable", "async_callable", "raising_callable", "raising_base_callable"]
+ACTIONS = ["cancel", "none", "sync_callable", "async_callable", "raising_callable", "raising_base_callable", "raising_async_callable"]
 
 
 def gen_service_program(rng: Any, *, crash: bool = False) -> dict[str, Any]:
@@ -87,7 +87,7 @@ def gen_service_program(rng: Any, *, crash: bool = False) -> dict[str, Any]:
             party.append(["sleep", rng.choice([0.25, 0.25, 0.75])])
             party.append(["resource", fresh()])
     prog = {"backend": rng.choice(["asyncio", "trio"]), "sched_seed": rng.randrange(1 << 30), "shuffle": rng.random() < 0.5,
-            "nested": rng.random() < 0.5, "steps": steps, "crash": None, "party": party}
+            "nested": rng.random() < 0.5, "steps": steps, "crash": None, "party": party, "in_component": rng.random() < 0.3}
     if crash:
         svc = [s for s in steps if s[0] == "service"]
         victim = rng.choice(svc)
@@ -229,6 +229,11 @@ class ServiceRun:
             def teardown_action() -> None:
                 run.log("svc-action", sid)
                 raise RuntimeError("teardown action failed")
+        elif action == "raising_async_callable":
+            # fails while it is being awaited: the task is cancelled instead, just as for a callable that raises when called
+            async def teardown_action() -> None:  # type: ignore[misc]
+                run.log("svc-action", sid)
+                raise RuntimeError("asynchronous teardown action failed")
         else:
             class StopNow(BaseException):
                 pass
@@ -288,7 +293,18 @@ class ServiceRun:
 
         async with create_task_group() as ptg:
             ptg.start_soon(party)
-            await self.owner_steps(ctx, registered)
+            if self.prog.get("in_component"):
+                # the registrations are made from a component's start(): the module-level shortcuts then go through the component
+                # context's delegating wrappers, and everything still belongs to the context start_component() was called in
+                from asphalt.core import Component, start_component
+
+                class Host(Component):
+                    async def start(self_inner) -> None:  # noqa: N805
+                        await run.owner_steps(ctx, registered)
+
+                await start_component(Host, timeout=None)
+            else:
+                await self.owner_steps(ctx, registered)
         self.log("block-end", "owner")
 
     async def owner_steps(self, ctx: Any, registered: list[int]) -> None:
@@ -503,13 +519,13 @@ def check_service(run: ServiceRun) -> tuple[list[dict[str, Any]], dict[str, int]
             t = t + delay
         elif state == "cleanup":
             # the task stopped by itself and is cleaning up (unshielded): a cancelling finalizer interrupts that now
-            if action in ("cancel", "raising_callable", "raising_base_callable"):
+            if action in ("cancel", "raising_callable", "raising_base_callable", "raising_async_callable"):
                 end = t
             else:
                 end = self_end + spec["cleanup"]
             t = max(t + delay, end)
         else:
-            if action in ("cancel", "raising_callable", "raising_base_callable"):
+            if action in ("cancel", "raising_callable", "raising_base_callable", "raising_async_callable"):
                 stop_t, observe_cancel = t, True
             elif action == "none":
                 stop_t = self_end
@@ -581,6 +597,8 @@ def check_service(run: ServiceRun) -> tuple[list[dict[str, Any]], dict[str, int]
         inc("nested_owner")
     else:
         inc("root_owner")
+    if prog.get("in_component"):
+        inc("registrations_made_from_a_component")
     return V, c
 
 
@@ -690,7 +708,10 @@ class FactoryRun:
         async def body(task_status: Any = None) -> None:
             ctx = current_context()
             par = ctx.parent
-            run.log("task-start", tid, parent_parent_is_owner=bool(par is not None and par.parent is run.owner),
+            from asphalt.core import get_resource_nowait as _grn
+
+            late_factory_visible = _grn(ST0, "after_factory", optional=True) is not None
+            run.log("task-start", tid, late_factory_visible=late_factory_visible, parent_parent_is_owner=bool(par is not None and par.parent is run.owner),
                     parent_is_spawner_ctx=bool(par is spawner_ctx_getter()), parent_is_owner=bool(par is run.owner),
                     visible=sorted(get_resources(ST0)))
             if spec.get("own_teardown"):
@@ -860,6 +881,7 @@ class FactoryRun:
             else:
                 self.factory = await ctx.start_background_task_factory(exception_handler=handler)
             ctx.add_resource(ST0(), "after")
+            ctx.add_resource_factory(lambda: ST0(), "after_factory", types=[ST0])  # (a factory added afterwards is not inherited either)
             self.check_handles("factory started")
             for cmd in prog["cmds"]:
                 kind = cmd[0]
@@ -925,6 +947,12 @@ class FactoryRun:
                     self.log("left", "owner")
                     self.check_handles("after owner left")
                 self.log("root-left", "root", exc=describe_exc(self.root_boundary))
+                # whatever ended the tasks - they returned, raised, were cancelled through their handle or by a failure that took
+                # the application down - none of them is running any more: wait_finished() of every handle returns
+                for tid, h in list(self.handles.items()):
+                    with anyio.move_on_after(5) as sc:
+                        await h.wait_finished()
+                    self.log("wait-after-exit", tid, returned=not sc.cancelled_caught)
                 # spawning after the factory has finished must fail and must not leave a handle behind
                 if prog["spawn_after_close"] and self.root_boundary is None:
                     async def late() -> None:
@@ -1010,6 +1038,9 @@ def check_factory(run: FactoryRun) -> tuple[list[dict[str, Any]], dict[str, int]
             bad("factory-task-context", f"task {tid}: its context's parent is not the factory's own context (a child of the owning context)")
         if e["parent_is_spawner_ctx"]:
             bad("factory-task-context", f"task {tid} (spawned from {where}) runs in a child of the spawner's context")
+        if e.get("late_factory_visible"):
+            bad("factory-task-snapshot", f"task {tid} (spawned from {where}) can use a resource factory that was added to the owning context after the task factory "
+                                         f"had been started")
         if prog.get("owner_empty"):
             inc("tasks_of_a_factory_started_in_an_empty_context")
         if e["visible"] != ([] if prog.get("owner_empty") else ["before"]):
@@ -1108,6 +1139,13 @@ def check_factory(run: FactoryRun) -> tuple[list[dict[str, Any]], dict[str, int]
             if e["kind"] == "wait-call" and e["actor"] not in returned:
                 bad("factory-wait-never-returned", f"wait_finished() of task {e['actor']} (called at {e['vt']}) had not returned 50 virtual seconds after the "
                                                    f"owning context was left")
+    for e in ev:
+        if e["kind"] == "wait-after-exit":
+            inc("wait_finished_calls_after_the_owner_was_left")
+            if not e["returned"]:
+                bad("factory-wait-never-returned", f"wait_finished() of task {e['actor']}, called after the root context had been left "
+                                                   f"({'by a failure that took the application down' if fatal else 'normally'}), did not return")
+                break
     # ---- exception handler
     raisers = [tid for tid, e in end.items() if e["how"] == "raise"]
     for tid in raisers:
